@@ -1,5 +1,8 @@
 import PyodaProofs.C07
 import PyodaProofs.C07b
+import PyodaProofs.C07Stepped
+import PyodaProofs.C07Reformat
+import PyodaProofs.C07Instances
 
 #print axioms Pyoda.C07.parseDigits_leftPad
 #print axioms Pyoda.C07.parseDigits_pad2
@@ -23,3 +26,26 @@ import PyodaProofs.C07b
 #print axioms Pyoda.C07.iso_date_format_injective
 #print axioms Pyoda.C07.iso_time_general_reformat
 #print axioms Pyoda.C07.iso_time_general_parsed_chars
+#print axioms Pyoda.C07.formatNum_eq
+#print axioms Pyoda.C07.parseField_numOut
+#print axioms Pyoda.C07.truncOut_cases
+#print axioms Pyoda.C07.step_roundtrip
+#print axioms Pyoda.C07.steps_roundtrip
+#print axioms Pyoda.C07.lastSafe_sound
+#print axioms Pyoda.C07.follow_sound
+#print axioms Pyoda.C07.delimited_stepsOK
+#print axioms Pyoda.C07.stepped_roundtrip
+#print axioms Pyoda.C07.pattern_roundtrip
+#print axioms Pyoda.C07.isoTime_compiles
+#print axioms Pyoda.C07.isoTime_delimited
+#print axioms Pyoda.C07.isoDate_compiles
+#print axioms Pyoda.C07.isoDate_delimited
+#print axioms Pyoda.C07.offsetLong_compiles
+#print axioms Pyoda.C07.offsetLong_delimited
+#print axioms Pyoda.C07.isoTime_generic_roundtrip
+#print axioms Pyoda.C07.parseDigits_fixed_inv
+#print axioms Pyoda.C07.parseField_fixed_inv
+#print axioms Pyoda.C07.parseSteps_frame
+#print axioms Pyoda.C07.reformat_idempotent
+#print axioms Pyoda.C07.isoDate_generic_roundtrip
+#print axioms Pyoda.C07.offsetLong_generic_roundtrip
